@@ -95,8 +95,8 @@ Proof.
   destruct t as [[[[[s a] s1] a1] r] | k [[[[s a] s1] r] mu] | k [[[[[[s a] s1] r] prow] pi] mu]];
     cbn [tstep_apply sarsal_step offctrl_step offeval_step fst].
   - apply update_traces_range; try assumption; nra.
-  - destruct Hlam as [Hk Hmu]. destruct (greedy_scan (row q s1)) as [[sm maxA] maxV].
-    destruct (ctrl_td_range k (tp_lam p) (tp_eps p) (tp_nA p) a maxA mu) as [T0 T1]; try assumption.
+  - destruct Hlam as [Hk Hmu]. destruct (greedy_scan (row q s1)) as [[sm maxA1] maxV].
+    destruct (ctrl_td_range k (tp_lam p) (tp_eps p) (tp_nA p) a (fst (argmax (row q s))) mu) as [T0 T1]; try assumption.
     apply update_traces_range; try assumption; nra.
   - destruct Hlam as (Hk & Hmu & Hp0 & Hp1).
     destruct (eval_td_range k (tp_lam p) pi mu) as [T0 T1]; try assumption.
@@ -429,4 +429,44 @@ Proof.
     + apply Forall_forall; auto.
     + apply shape_qzero.
   - apply traces_unique_keys_lemma.
+Qed.
+
+(* ---------------------------------------------------------------- the documented trace cut *)
+Lemma nth_map_seq : forall (f : nat -> Q) n a, (a < n)%nat -> nth a (map f (seq 0 n)) 0 = f a.
+Proof.
+  intros f n a H. rewrite (nth_indep _ 0 (f O)) by (rewrite map_length, seq_length; exact H).
+  rewrite map_nth. rewrite seq_nth by exact H. reflexivity.
+Qed.
+
+Lemma qmin_eq : forall a x y, x == y -> Qmin a x == Qmin a y.
+Proof.
+  intros a x y E. destruct (Q.min_spec a x) as [[H1 ->]|[H1 ->]]; destruct (Q.min_spec a y) as [[H2 ->]|[H2 ->]]; lra.
+Qed.
+
+(* the repaired step cuts the traces with exactly the documented factor *)
+Lemma ctrl_discount_documented : forall k lam eps nA q s a mu,
+  length (row q s) = nA -> (a < nA)%nat ->
+  ctrl_trace_discount k lam eps nA a (fst (argmax (row q s))) mu == doc_ctrl_discount k lam eps q s a mu.
+Proof.
+  intros k lam eps nA q s a mu Hlen Ha. unfold ctrl_trace_discount, doc_ctrl_discount, target_prob, egreedy_row, nthq.
+  rewrite nth_map_seq by (rewrite Hlen; exact Ha). rewrite Hlen.
+  set (c := eps / inject_Z (Z.of_nat nA)).
+  assert (E : c + (if Nat.eqb a (fst (argmax (row q s))) then 1 else 0) * (1 - eps) ==
+              c + (if Nat.eqb a (fst (argmax (row q s))) then 1 - eps else 0))
+    by (destruct (Nat.eqb a (fst (argmax (row q s)))); lra).
+  destruct k.
+  - reflexivity.
+  - apply Qmult_comp; [reflexivity|]. apply qmin_eq. rewrite E. reflexivity.
+  - rewrite E. reflexivity.
+  - rewrite E. reflexivity.
+Qed.
+
+Lemma offctrl_step_documented : forall k alpha g lam tol eps nA st s a s1 r mu,
+  exists err td, offctrl_step k alpha g lam tol eps nA st (s, a, s1, r, mu) = update_traces s a err td tol st /\
+    (length (row (fst st) s) = nA -> (a < nA)%nat -> td == g * doc_ctrl_discount k lam eps (fst st) s a mu).
+Proof.
+  intros k alpha g lam tol eps nA st s a s1 r mu. cbn [offctrl_step].
+  destruct (greedy_scan (row (fst st) s1)) as [[sm mA] mV].
+  eexists. eexists. split; [reflexivity|]. intros Hl Ha.
+  rewrite (ctrl_discount_documented k lam eps nA (fst st) s a mu Hl Ha). reflexivity.
 Qed.
